@@ -39,6 +39,10 @@ func (p *ResetProcessor) UnmarshalYAML(value *yaml.Node) error {
 	if err != nil {
 		return err
 	}
+	if resolved == nil {
+		// the document node itself is tagged !reset: nothing left to decode
+		return nil
+	}
 	return resolved.Decode(p.target)
 }
 
